@@ -199,6 +199,14 @@ func c11RdbCorruption(t *rapid.T) {
 			return
 		}
 	}
+	// a trailer that is missing or cut short is corruption too: nothing was compared
+	for cut := 1; cut <= 8; cut++ {
+		tried++
+		if _, err := loadOK(sf.bytes[:n-cut], sizes); err == nil {
+			violation(t, "C11", "trailer-truncated", "RDB whose 8-byte checksum trailer was cut to %d bytes is accepted", 8-cut)
+			return
+		}
+	}
 	stats.C.Count("rdb_substitutions_tried", int64(tried))
 	stats.C.Case(sf.keys >= 3, stats.Hash(sf.bytes), "rdb-corruption")
 	if sf.keys >= 3 && len(sf.bytes) < 200 {
